@@ -322,6 +322,19 @@ theorem trim_concat_laws (s t u : List Nat) :
   · simp [rtrimBytes, hl]
   · simp [concatV, Except.bind, List.append_assoc]
 
+/-! ## DOUBLE values (compare-only: no floating-point operation is modelled) -/
+
+/-- DOUBLE values are compared through their order keys, are NULL-strict like every comparison, pass unchanged into a
+    DOUBLE column and into no other, and take no part in arithmetic -/
+theorem double_compare_only (op : CmpOp) (a b : Int) (ty : Ty) (aop : ArithOp) (v : Value) (hv : v ≠ .null) :
+    cmp3 op (.dbl a) (.dbl b) = some (op.holds (cmpInt a b)) ∧
+    cmp3 op (.dbl a) .null = none ∧
+    (castTo ty (.dbl a) = if ty = .double then .ok (.dbl a) else .error .type) ∧
+    arith .none aop (.dbl a) v = .error .type := by
+  refine ⟨rfl, rfl, ?_, ?_⟩
+  · cases ty <;> rfl
+  · cases v <;> first | exact absurd rfl hv | rfl
+
 /-! ## Aggregates -/
 
 /-- COUNT(expr) counts the non-NULL values only; COUNT(*) counts rows -/
